@@ -2,7 +2,7 @@
 # Re-run every kept seeded change against the checks that are recorded as catching it.
 # usage: selftest/sensitivity.sh [ids...]   (default: all of /verif/seeded)
 cd "$(dirname "$0")/.."
-ids=${@:-$(ls seeded)}
+ids=${@:-$(ls -d seeded/C*_* | xargs -n1 basename)}
 ok=0; bad=0
 for id in $ids; do
   checks=$(/venv/bin/python -c "
